@@ -140,7 +140,7 @@ def gen_project():
             pass
     disp, reqs = [], []
     for f in coq_files():
-        if os.path.basename(f) != "Codec.v":
+        if "DISPATCH" not in open(f).read() or f.endswith("Dispatch.v"):
             continue
         mod = os.path.relpath(f, th)[:-2].replace(os.sep, ".")
         found = re.findall(r"\(\*\s*DISPATCH\s+(\d+)\s+([\w']+)\s*\*\)", open(f).read())
